@@ -13,6 +13,7 @@ import KavaVerif.Model.Evmutil
     kind ∈ c2e e2c cc2e e2cc (the four messages) | xfer send xmint (environment) | pairs allow (params)
     contracts are tags x<n> (external) / d<k> (k-th deployed by the module); parties are indices,
     0 = module, 1 = zero address; pairs/reg are `tag=denom` lists; bank/ebal are `;`-separated rows.
+  c10.bep3 / c10.isbep3: the pure bep3 helpers through the verif hook.
   c10.rt fields (round trip = two successful messages, the second undoing the first):
     kind denoms U blocked | pre (8) | a b x amt "=>" | post (8)      kind ∈ native | cosmos
 -/
@@ -89,10 +90,8 @@ def toPairs (l : List (String × String)) : List Pair :=
   l.filterMap fun p => (contract? p.1).map (·, p.2)
 
 def stOf (denoms : List String) (o : Obs) : St :=
-  { bank := fun d a => bankAt denoms o d a
-    supply := fun d => supplyAt denoms o d
-    ebal := fun c a => ebalAt o (tagOf c) a
-    etotal := fun c => totalAt o (tagOf c)
+  { bank := { bal := fun d a => bankAt denoms o d a, supply := fun d => supplyAt denoms o d }
+    erc := { bal := fun c a => ebalAt o (tagOf c) a, total := fun c => totalAt o (tagOf c) }
     reg := fun d => match regTag o d with
       | some t => match contract? t with
         | some (.dep k) => some k
@@ -113,10 +112,10 @@ def canonSt (denoms tags : List String) (nParties : Nat) (s : St) : String :=
   " pairs=" ++ ",".intercalate (s.pairs.map fun p => tagOf p.1 ++ "=" ++ p.2) ++
   " allowed=" ++ ",".intercalate s.allowed ++
   " reg=" ++ ",".intercalate regs ++
-  " bank=" ++ showRows (denoms.map fun d => ps.map (s.bank d)) ++
-  " supply=" ++ showInts (denoms.map s.supply) ++
-  " ebal=" ++ showRows (cs.map fun c => ps.map (s.ebal c)) ++
-  " total=" ++ showInts (cs.map s.etotal)
+  " bank=" ++ showRows (denoms.map fun d => ps.map (s.bank.bal d)) ++
+  " supply=" ++ showInts (denoms.map s.bank.supply) ++
+  " ebal=" ++ showRows (cs.map fun c => ps.map (s.erc.bal c)) ++
+  " total=" ++ showInts (cs.map s.erc.total)
 
 def opOf (kind : String) (a b : Nat) (x : String) (amt : Int) : Option Op :=
   match kind with
@@ -286,6 +285,20 @@ def handleOp : Handler
         | none => badInput "op"
         | some op =>
           let s := stOf denoms pre
+          -- (2) property predicates on the implementation's own observation (reported first: a
+          --     violated predicate is the stronger verdict, and it does not depend on the model)
+          let pred : String :=
+            match statePred denoms U post with
+            | some (nm, why) => predfail nm why
+            | none =>
+              if result == "err" then
+                if pre == post then "ok" else predfail "C10_failed_changes_nothing" "state-changed"
+              else if result == "ok" then
+                match okPred kind denoms pre post a b x amt with
+                | some (nm, why) => predfail nm s!"{why} {kind}"
+                | none => "ok"
+              else predfail "C10_no_panic" kind
+          if pred != "ok" then pred else
           -- (1) model vs implementation
           let res := step blockedF s op
           let modelCls := if res.isOk then "ok" else "err"
@@ -295,17 +308,7 @@ def handleOp : Handler
           let itxt := canonSt denoms post.tags n (stOf denoms post)
           if mtxt != itxt then mismatch "state" mtxt itxt else
           if (stOf denoms post).nextC != s'.nextC then mismatch "deployed" (toString s'.nextC) (toString (nDep post)) else
-          -- (2) property predicates on the implementation's own observation
-          match statePred denoms U post with
-          | some (nm, why) => predfail nm why
-          | none =>
-            if result == "err" then
-              if pre == post then "ok" else predfail "C10_failed_changes_nothing" "state-changed"
-            else if result == "ok" then
-              match okPred kind denoms pre post a b x amt with
-              | some (nm, why) => predfail nm s!"{why} {kind}"
-              | none => "ok"
-            else predfail "C10_no_panic" kind
+          "ok"
       | _, _, _, _ => badInput "parse-op"
     | _, _, _ => badInput "parse"
   | _ => badInput "arity"
@@ -321,13 +324,16 @@ def handleRt : Handler
         let x := x.trimAscii.toString
         let blockedF : Addr → Bool := fun i => bl.getD i 0 == 1
         let s := stOf denoms pre
+        -- predicate on the implementation's observation: everything is as before the round trip
+        if !(frameOk pre post {} && pre.pairs == post.pairs && pre.allowed == post.allowed) then
+          predfail "C10_round_trip" s!"not-restored {kind}" else
         -- model: both messages succeed and restore the balances
-        let ops : Option (Op × (St → Op)) := match kind with
+        let ops : Option (Op × Op) := match kind with
           | "native" => (contract? x).bind fun c =>
               match findByContract s.pairs c with
-              | some p => some (.ercToCoin a b c amt, fun _ => .coinToErc b a p.2 (if isBep3 p.2 then amt / F else amt))
+              | some p => some (.ercToCoin a b c amt, .coinToErc b a p.2 (if isBep3 p.2 then amt / F else amt))
               | none => none
-          | "cosmos" => some (.cosmosToErc a b x amt, fun _ => .cosmosFromErc b a x amt)
+          | "cosmos" => some (.cosmosToErc a b x amt, .cosmosFromErc b a x amt)
           | _ => none
         match ops with
         | none => badInput "rt-op"
@@ -335,20 +341,44 @@ def handleRt : Handler
           match step blockedF s op1 with
           | .err => mismatch "rt-first" "err" "ok"
           | .ok s1 =>
-            match step blockedF s1 (op2 s1) with
+            match step blockedF s1 op2 with
             | .err => mismatch "rt-second" "err" "ok"
             | .ok s2 =>
               let n := bl.length
               let strip (t : String) : String := (t.splitOn " reg=").getD 0 "" ++ " bank=" ++ ((t.splitOn " bank=").getD 1 "")
               let mtxt := strip (canonSt denoms post.tags n s2)
               let itxt := strip (canonSt denoms post.tags n (stOf denoms post))
-              if mtxt != itxt then mismatch "rt-state" mtxt itxt else
-              if frameOk pre post {} && pre.pairs == post.pairs && pre.allowed == post.allowed then "ok"
-              else predfail "C10_round_trip" s!"not-restored {kind}"
+              if mtxt != itxt then mismatch "rt-state" mtxt itxt else "ok"
       | _, _, _, _ => badInput "parse-rt"
     | _, _, _ => badInput "parse"
   | _ => badInput "arity"
 
+/-- the pure bep3 helpers (through the verif hook): fields amount "=>" result mint lock coin back -/
+def handleBep3 : Handler
+  | [amt, _, result, mint, lock, coin, back] =>
+    match int? amt, int? mint, int? lock, int? coin, int? back with
+    | some amt, some mint, some lock, some coin, some back =>
+      -- predicates on the implementation's output
+      if result == "ok" && !(mint > 0 && lock == mint * KV.Gen.bep3ConversionFactor && lock ≤ amt
+          && amt - lock < KV.Gen.bep3ConversionFactor) then predfail "C10_dust_stays" "bep3-mint-lock"
+      else if result == "err" && amt ≥ KV.Gen.bep3ConversionFactor then predfail "C10_dust_stays" "whole-unit-refused"
+      else if back != coin * KV.Gen.bep3ConversionFactor then predfail "C10_value_conserved" "bep3-coin-to-erc20-amount"
+      else
+      -- model
+      let mm := amt / F
+      let modelCls := if mm = 0 then "err" else "ok"
+      if modelCls != result then mismatch "bep3-result" modelCls result
+      else if result == "ok" && (mm != mint || mm * F != lock) then
+        mismatch "bep3-amounts" s!"{mm},{mm * F}" s!"{mint},{lock}"
+      else "ok"
+    | _, _, _, _, _ => badInput "parse-bep3"
+  | _ => badInput "arity"
+
+def handleIsBep3 : Handler
+  | [d, _, r] => expectEq "isbep3" (showBool (isBep3 d)) r.trimAscii.toString
+  | _ => badInput "arity"
+
 /-- handlers of property C10: (command name, handler) -/
-def handlers : List (String × Handler) := [("c10.op", handleOp), ("c10.rt", handleRt)]
+def handlers : List (String × Handler) :=
+  [("c10.op", handleOp), ("c10.rt", handleRt), ("c10.bep3", handleBep3), ("c10.isbep3", handleIsBep3)]
 end Drv.C10
